@@ -400,6 +400,15 @@ def run(ctx):
         k_dup = rev_seen.get(rk, 0)
         rev_seen[rk] = k_dup + 1
         cands = [e for e in reviewed if (e["fn"], e["kind"], e["req"]) == rk]
+        if not cands and kind == "P1":
+            # an explicit panic is identified by its message: when the statement was moved into another function (a
+            # shared helper), the review of that message still applies provided its premises hold where it now lives
+            moved = [e for e in reviewed if e["kind"] == "P1" and e["req"] == areq and id(e) not in used_reviews and
+                     not any(x.npath == e["fn"] and any(panic_message(Fn(x), t2).strip('"')[:60] in areq
+                                                          for _i, t2 in x.calls() if t2.get("target") is None)
+                             for x in [cg.nodes[pp] for pp in R] if x.npath == e["fn"])]
+            cands = moved[:1]
+            k_dup = 0
         if os.environ.get("C18_DUMP"):
             dump.append({"fn": b.npath, "kind": kind, "req": areq, "facts": afacts, "line": line, "what": what})
         if k_dup < len(cands):
